@@ -6,6 +6,7 @@ property statement directly on what the real objects did (independent of the mod
 """
 import re
 
+from twisted.internet import defer
 from twisted.internet.defer import AlreadyCalledError, CancelledError, Deferred
 from twisted.python.failure import Failure
 
@@ -64,6 +65,8 @@ def corpus():
     return [
         # the hand-found defect: a canceller that raises
         {"spec": "r", "ops": ["x"]},
+        {"spec": "n", "ops": ["x", "cb1", "cb2"], "dbg": True},      # Deferred debugging on: the one late callback is still ignored
+        {"spec": "n", "ops": ["cb1", "ac:n", "x", "fi0:v3", "fi0:v4"], "dbg": True},
         {"spec": "r", "ops": ["x", "x", "cb1"]},
         {"spec": "n", "ops": ["cb1", "ac:r", "x"]},
         # one test per rule of the statement
@@ -143,10 +146,18 @@ def generate(rng, tier):
     if tier != "quick":       # the statement's "length <= 8", for the canceller-less Deferred
         for ops in _enumerate(8, reduced=True):
             yield {"spec": "n", "ops": ops}
+    # the same bounded-exhaustive slice (shallower) with Deferred debugging switched on
+    for spec in SPECS:
+        for d in range(1, full_depth):
+            for ops in _enumerate(d, reduced=False):
+                yield {"spec": spec, "ops": ops, "dbg": True}
     n = 1500 if tier == "quick" else 40000
-    for _ in range(n):
-        yield {"spec": rng.choice(SPECS + [f"o{rng.randint(0, 9)}", f"e{rng.randint(0, 9)}"]),
-               "ops": _random_history(rng, 40)}
+    for i in range(n):
+        c = {"spec": rng.choice(SPECS + [f"o{rng.randint(0, 9)}", f"e{rng.randint(0, 9)}"]),
+             "ops": _random_history(rng, 40)}
+        if i % 4 == 2:
+            c["dbg"] = True
+        yield c
 
 
 def model_line(c):
@@ -213,6 +224,17 @@ def _snap(cells):
 
 
 def run_impl(c):
+    # Deferred debugging (defer.setDebugging, what `trial --debug` / `twistd --debug` switch on) must not change any
+    # observable of the statement (seeded change C03-2 moved the _suppressAlreadyCalled test into the non-debug branch)
+    dbg = defer.getDebugging()
+    defer.setDebugging(bool(c.get("dbg")))
+    try:
+        return _run_impl(c)
+    finally:
+        defer.setDebugging(dbg)
+
+
+def _run_impl(c):
     cells = [_Cell(c["spec"])]
     outer = cells[0]
     toks = []
@@ -426,6 +448,15 @@ def tag(c, out):
 
 
 def shrink(c):
+    for d in _shrink(c):
+        if c.get("dbg"):
+            d["dbg"] = True
+        yield d
+    if c.get("dbg"):
+        yield {"spec": c["spec"], "ops": c["ops"]}
+
+
+def _shrink(c):
     ops = c["ops"]
     for i in range(len(ops)):
         cand = ops[:i] + ops[i + 1:]
